@@ -153,11 +153,11 @@ class Adapter:
 
     def results(self, simu):
         k = self.kind
-        names = dict(elastic_dyn=["Svm", "Wdef"], thermal=["thermal"], beam=["N", "Mz"], phasefield=["psiP", "damage", "Svm"],
+        names = dict(elastic_dyn=["Svm", "Wdef"], thermal=["thermal"], beam=["N", "Mz"], phasefield=["psiP", "damage", "Svm", "Wdef", "Psi_Crack"],
                      inelastic=["Svm", "p"], hyperelastic=["Svm"])[k]
         out = {}
         for nm in names:
-            v = simu.Result(nm, nodeValues=False) if nm not in ("Wdef",) else simu.Result(nm)
+            v = simu.Result(nm, nodeValues=False) if nm not in ("Wdef", "Psi_Crack") else simu.Result(nm)
             if v is not None:
                 out[nm] = np.array(v, float)
         return out
@@ -307,7 +307,7 @@ def run_history(case, rec):
                         nm = sorted(S["results"])[0] if S["results"] else None
                         if nm is None:
                             continue
-                        v = simu.Result(nm, nodeValues=False, iter=i) if nm != "Wdef" else simu.Result(nm, iter=i)
+                        v = simu.Result(nm, nodeValues=False, iter=i) if nm not in ("Wdef", "Psi_Crack") else simu.Result(nm, iter=i)
                         exp = S["results"][nm]
                         rec.require(v is not None and np.shape(v) == exp.shape, "result_iter_shape", f"Result('{nm}', iter={i}) has shape "
                                     f"{np.shape(v)}, at save time {exp.shape}", **sig)
